@@ -71,11 +71,13 @@ def compare_triple(rec, args, assumptions, timeout_ms, check_side_effects=True):
         return "unmodelled", [], 0.0, None
     except Exception as e:  # noqa: BLE001
         r1 = Raised(type(e).__name__)
+    n1 = graphs.TICK.n
     graphs.TICK.reset()
     try:
         r2 = f2(*a2)
     except Exception as e:  # noqa: BLE001
         r2 = Raised(type(e).__name__)
+    n2 = graphs.TICK.n
     graphs.TICK.reset()
     try:
         r3 = graphs.Interp().run_graph(graph, a3) if isinstance(graph, graphs.tr().Graph) else None
@@ -83,6 +85,11 @@ def compare_triple(rec, args, assumptions, timeout_ms, check_side_effects=True):
         r3 = None
     except Exception as e:  # noqa: BLE001
         r3 = Raised(type(e).__name__)
+    n3 = graphs.TICK.n
+    if not isinstance(r1, Raised) and not isinstance(r2, Raised) and n1 != n2:
+        problems.append(f"the counting constant is called {n1} time(s) by the function and {n2} time(s) by the stand-alone text")
+    if r3 is not None and not isinstance(r1, Raised) and not isinstance(r3, Raised) and n1 != n3:
+        problems.append(f"the counting constant is called {n1} time(s) by the generated code but the graph applies it {n3} time(s) (a shared node evaluated more than once, or dropped)")
     total = 0.0
     model = None
     raised = [isinstance(r, Raised) for r in (r1, r2, r3)]
@@ -340,7 +347,7 @@ import einx._src.tracer as tracer
 class CTick(graphs.Tick):
     def __call__(self, x):
         self.n += 1
-        return x + 1000 * self.n
+        return x + 1000
 graphs.TICK = CTick()
 graph, shapes, desc = graphs.build_random_graph({seed}, {max_nodes})
 fn, code = tracer.compiler.python.compile(graph, return_code=True)
@@ -350,7 +357,7 @@ def run(f):
     graphs.TICK.reset()
     try:
         r = f(*[a.copy() for a in args])
-        return [np.asarray(x).tolist() for x in (r if isinstance(r, (tuple, list)) else [r])]
+        return [np.asarray(x).tolist() for x in (r if isinstance(r, (tuple, list)) else [r])] + ["counting constant called %d time(s)" % graphs.TICK.n]
     except Exception as e:
         return "raised " + type(e).__name__
 r1 = run(fn)
@@ -560,6 +567,9 @@ def main():
     twin = vacuity_twin()
     if twin != "violation?":
         rep.harness_error(f"vacuity twin (text with an altered statement) came back {twin!r}")
+    twin2 = tick_twin()
+    if twin2 != "violation?":
+        rep.harness_error(f"vacuity twin (a constant application evaluated twice) came back {twin2!r}")
     rep.coverage = {
         "programs": len(cap_items) + len(rnd_items) + len(seq_items),
         "disagreements_checked": sum(v for k, v in status.items() if k.endswith(":violation") or k.endswith("not-reproduced")),
@@ -572,6 +582,7 @@ def main():
         "random_graph_constructs": dict(constructs),
         "solver_time_s": round(solver_s, 3),
         "vacuity_twin": twin,
+        "vacuity_twin_double_evaluation": twin2,
         "bounds": dict(family.Bounds(tier).as_dict(), random_graph_nodes_max=MAX_NODES[tier]),
         "outside": "tracer/compiler/run.py (not used by the numpy backends); vmap-style nested definitions arise only in the random family",
     }
@@ -581,6 +592,25 @@ def main():
         "tensor contents are mathematical integers",
     ]
     rep.finish()
+
+
+def tick_twin():
+    """Second twin: text in which one application of the counting constant is evaluated twice (same values!) must
+    be flagged through the call counts."""
+    tracer = graphs.tr()
+    for seed in range(12345, 12445):
+        graph, shapes, desc = graphs.build_random_graph(seed, 10)
+        fn, code = tracer.compiler.python.compile(graph, return_code=True)
+        m = re.search(r"^(\s+)(\w+) = const1\((\w+)\)$", code, flags=re.M)
+        if not m:
+            continue
+        line = m.group(0)
+        bad = code.replace(line, line + "\n" + line, 1)  # the same statement twice: identical values, one more call
+        rec = {"function": fn, "code": bad, "graph": graph}
+        args = [S.fresh(f"x{i}", s) for i, s in enumerate(shapes)]
+        st, pr, dt, model = compare_triple(rec, args, [], 10000)
+        return st if any("counting constant" in p for p in pr) else f"not flagged: {st} {pr}"
+    return "no graph with a const1 application found"
 
 
 def vacuity_twin():
